@@ -13,6 +13,10 @@
      exception messages (f-strings, str(e), concatenations) are not translated: EMessage, an unspecified text
      `raise X(...) from e` raises an exception of class X; `except` matches by class (catches)
      functools.lru_cache on is_quoted is transparent (the function is pure)
+   Before translating, the translator normalises the Python AST (meaning kept; see its docstring): helper functions of
+   the same module / class that are called as a whole right-hand side, returned value or comprehension iterable are
+   inlined (parameters substituted or bound to fresh locals, `return` in tail positions -> assignment), try/except/else
+   becomes a try plus a fresh flag, and R.match(x) whose truth value alone is used is bool(R.match(x)).
    The two loops of IniConfigParser.parse (sections of the file that are in self.sections, in file order; the
    (key, value) items of each) are recognised as shapes by the translator and interpreted by ini_parse_ir. *)
 From Coq Require Import ZArith NArith List Bool.
